@@ -13,6 +13,7 @@ the requester gets a failure, rally's exit status is ERROR (INTERRUPTED for canc
 was printed, and the kernel saw no stall.
 """
 import json
+import os
 
 from esrally import metrics
 from esrally.track import loader
@@ -76,6 +77,9 @@ def base_cases():
             {"tasks": [R("raw", {"operation-type": "raw-request", "path": "/_verif/raw", "method": "GET"})]},
             # asks with HEAD whether the index exists before deleting it: a HEAD answered with an error status is a failed request, too
             {"tasks": [R("delete", {"operation-type": "delete-index", "index": "idx", "only-if-exists": True})]}]),
+        # the schedule and delay profile under which a BenchmarkComplete overtook the bounced failure notification of race control's
+        # TaskFinished handler (found by the thorough tier, repaired in /repo d77538d); only the race-control store faults are enumerated here
+        json.load(open(os.path.join(os.path.dirname(__file__), "c09_base_overtake.json"))),
         dict(common, seed=104, cores=1, hosts=["localhost"], test_mode=False, delay="adversarial", elements=[
             {"tasks": [T("a", 1, base=2.0, warmup_time_period=0, time_period=70)]}, {"tasks": [T("b", 1, warmup_iterations=0, iterations=2)]}]),
     ]
@@ -306,7 +310,12 @@ def check_failed(ctx, case, fault, tr, inj, problems):
     cancelled = kind == "cancel"
     heard = [m[1] for m in tr.to_racecontrol]
     ctx.clause("failure-reaches-race-control")
-    if not cancelled and not any(m in ("BenchmarkFailure", "PoisonMessage") for m in heard):
+    if kind == "rc-store-raises":
+        # the failure happens IN race control: what counts is that it tells its requester (it need not hear about its own failure again)
+        first = [d[2] for d in tr.kernel.deliveries if d[1] == "external"][:1]
+        if first not in (["BenchmarkFailure"], ["PoisonMessage"]) and not any(m in ("BenchmarkFailure", "PoisonMessage") for m in heard):
+            problems.append(("failure-reaches-race-control", f"{where}: race control neither told its requester about the failure (first reply: {first}) nor heard of it again; it heard {heard[-6:]}", {"kind": kind}))
+    elif not cancelled and not any(m in ("BenchmarkFailure", "PoisonMessage") for m in heard):
         problems.append(("failure-reaches-race-control", f"{where}: race control never received a failure notification; it heard {heard[-6:]}", {"kind": kind}))
     if cancelled and "BenchmarkCancelled" not in heard:
         problems.append(("failure-reaches-race-control", f"{where}: race control was not told about the cancellation; it heard {heard[-6:]}", {"kind": kind}))
@@ -377,6 +386,8 @@ def points_for(case, base_tr, rng, exhaustive):
     for m in msg_points:
         faults.append({"kind": "worker-dies", "at_message": m})
         faults.append({"kind": "cancel", "at_message": m})
+    if case.get("only_kinds"):
+        faults = [f for f in faults if f["kind"] in case["only_kinds"]]
     return faults
 
 
